@@ -146,7 +146,9 @@ def _observations(seed):
                          f"electrodes differ by {wp[-1, c] - wp[0, c]}")
     # very short dipoles are dipoles: support and distribution as
     # _dipole_vector (validated against DipoleOps.tla) gives them
-    for ln in (1e-2, 1e-4, 1e-7):
+    # (emg3d refuses electrodes closer than np.allclose's default tolerance,
+    # about 1e-5 x coordinate: stay well above it)
+    for ln in (1e-2, 6e-4):
         c0 = np.array([rng.uniform(0.3, ext[d]-0.3) for d in range(3)])
         dd = rng.standard_normal(3)
         dd *= ln/np.linalg.norm(dd)/2
